@@ -298,14 +298,17 @@ SELFCHECK = [
 
 
 def _selfcheck_pruning():
+    """Pruning must not lose behaviours.  The unpruned search is capped (it explodes quickly): every outcome and
+    violation class it finds must also be found by the complete pruned search; equality when it completed."""
     for cfg in SELFCHECK:
         a = vloop.explore(make_run_one, cfg, bound=None, procs=1)
-        b = vloop.explore(make_run_one, cfg, bound=None, procs=1, prune=False)
-        if set(a.outcomes) != set(b.outcomes):
+        b = vloop.explore(make_run_one, cfg, bound=None, procs=1, prune=False, cap=6000)
+        if not set(b.outcomes) <= set(a.outcomes) or (not b.capped and set(a.outcomes) != set(b.outcomes)):
             raise RuntimeError(f'state-hash pruning lost outcomes for {cfg}: {sorted(set(b.outcomes) ^ set(a.outcomes))[:3]}')
-        if {v[0] for v in a.violations} != {v[0] for v in b.violations}:
+        va, vb = {v[0] for v in a.violations}, {v[0] for v in b.violations}
+        if not vb <= va or (not b.capped and va != vb):
             raise RuntimeError(f'state-hash pruning changed the violation set for {cfg}')
-        if a.executions > b.executions:
+        if not b.capped and a.executions > b.executions:
             raise RuntimeError('pruned search larger than unpruned search')
 
 
